@@ -257,6 +257,17 @@ type EmbUnexp2 struct {
 	inner2
 }
 
+// embedded fields of named non-struct types carry their own tag
+type Label string
+type Scores []int32
+type Flag bool
+type EmbNamed struct {
+	Label  `thrift:"1"`
+	Scores `thrift:"2"`
+	Flag   `thrift:"30,required"`
+	N      int64 `thrift:"4"`
+}
+
 type Wide struct {
 	A int8   `thrift:"1,required"`
 	B int16  `thrift:"64,required"`
@@ -268,7 +279,7 @@ type Wide struct {
 
 var library = []reflect.Type{
 	reflect.TypeOf(Inner{}), reflect.TypeOf(EmbVal{}), reflect.TypeOf(EmbPtr{}), reflect.TypeOf(Rec{}), reflect.TypeOf(PtrPtr{}), reflect.TypeOf(EmbPtrPtr{}),
-	reflect.TypeOf(Bools{}), reflect.TypeOf(U{}), reflect.TypeOf(HoldsU{}), reflect.TypeOf(Wide{}), reflect.TypeOf(Deep0{}), reflect.TypeOf(EmbUnexp{}), reflect.TypeOf(EmbUnexp2{}), reflect.TypeOf([]Rec{}), reflect.TypeOf(map[string]Bools{}), reflect.TypeOf(map[Inner]struct{}{}),
+	reflect.TypeOf(Bools{}), reflect.TypeOf(U{}), reflect.TypeOf(HoldsU{}), reflect.TypeOf(Wide{}), reflect.TypeOf(Deep0{}), reflect.TypeOf(EmbNamed{}), reflect.TypeOf(EmbUnexp{}), reflect.TypeOf(EmbUnexp2{}), reflect.TypeOf([]Rec{}), reflect.TypeOf(map[string]Bools{}), reflect.TypeOf(map[Inner]struct{}{}),
 }
 
 // fillLib fills library values: like the generic filler, plus embedded pointers and recursion.
@@ -424,14 +435,85 @@ func runReuse(c *core.Case) {
 	c.Sample(steps, map[string]any{"sub": "reuse", "history": trail})
 }
 
+// long collections: sizes around the decoder's preallocation cap (64 KiB worth of elements) and
+// its doublings
+type longElem struct {
+	A int8 `thrift:"1"`
+}
+
+type longT struct {
+	I  []int64            `thrift:"1"`
+	S  []string           `thrift:"2"`
+	B  []bool             `thrift:"3"`
+	T  []longElem         `thrift:"4"`
+	M  map[int32]int32    `thrift:"5"`
+	Z  map[int64]struct{} `thrift:"6"`
+	I8 []int8             `thrift:"7"`
+}
+
+func runLong(c *core.Case) {
+	c.Journal("long-collections")
+	var v longT
+	field := c.Index % 7
+	// element sizes: int64 8, string 16, bool 1, struct 1, map entry 8+8, set 8+8, int8 1
+	cap64k := []int{8192, 4096, 65536, 65536, 4096, 4096, 65536}[field]
+	n := []int{cap64k - 1, cap64k, cap64k + 1, cap64k + cap64k/3, 2*cap64k + 1, 3 * cap64k}[(c.Index/7)%6]
+	switch field {
+	case 0:
+		v.I = make([]int64, n)
+		for i := range v.I {
+			v.I[i] = int64(i) - 7
+		}
+	case 1:
+		v.S = make([]string, n)
+		for i := range v.S {
+			v.S[i] = fmt.Sprint(i % 97)
+		}
+	case 2:
+		v.B = make([]bool, n)
+		for i := range v.B {
+			v.B[i] = i%3 == 0
+		}
+	case 3:
+		v.T = make([]longElem, n)
+		for i := range v.T {
+			v.T[i].A = int8(i)
+		}
+	case 4:
+		v.M = make(map[int32]int32, n)
+		for i := 0; i < n; i++ {
+			v.M[int32(i)] = int32(-i)
+		}
+	case 5:
+		v.Z = make(map[int64]struct{}, n)
+		for i := 0; i < n; i++ {
+			v.Z[int64(i)*3] = struct{}{}
+		}
+	default:
+		v.I8 = make([]int8, n)
+		for i := range v.I8 {
+			v.I8[i] = int8(i * 7)
+		}
+	}
+	val := reflect.ValueOf(&v).Elem()
+	for _, p := range protocols {
+		if !roundTrip(c, fmt.Sprintf("long|field%d", field), p, val.Type(), val, false) {
+			return
+		}
+	}
+	c.Count("long-collections.elements", n)
+	c.Distinct(core.Mix(uint64(field), uint64(n)), true)
+}
+
 func init() {
 	core.Register(&core.Monitor{
 		Prop:    "C04",
-		Rule:    "generated: struct types built at run time (0-70 fields; ids consecutive, with gaps inside and beyond the delta short form, ranges beyond 64 and 128, up to 32767, declared in any order; required/optional/enum; bool, int8..int64, int, float32/64, string, []byte, pointers to scalars, nested and pointer-to structs, lists, sets (also of named zero-size element types), maps, unions; occasionally a bare list/map/scalar at the top level) x 3 values (required pointers non-nil, no nil collection elements, no NaN keys) x {binary strict, binary non-strict, compact}, by value and through a pointer: Marshal must not fail, Unmarshal of the result must not fail and must be equal (nil == empty collections, floats by == or both NaN, unions through the member pointer). library: declared types with embedded structs by value and by pointer, recursion, pointer-to-pointer fields, bools in nested/pointer/list positions, unions nested in structs/lists/pointers, ids at 64/65/128/129/32767. reuse: one Encoder and one Decoder carried through 2-6 Reset calls across protocols (strict on/off), several values per stream: bytes equal to a fresh Marshal and values equal. Differences are classified by protocol and by the shape of the first differing field.",
+		Rule:    "generated: struct types built at run time (0-70 fields; ids consecutive, with gaps inside and beyond the delta short form, ranges beyond 64 and 128, up to 32767, declared in any order; required/optional/enum; bool, int8..int64, int, float32/64, string, []byte, pointers to scalars, nested and pointer-to structs, lists, sets (also of named zero-size element types), maps, unions; occasionally a bare list/map/scalar at the top level) x 3 values (required pointers non-nil, no nil collection elements, no NaN keys) x {binary strict, binary non-strict, compact}, by value and through a pointer: Marshal must not fail, Unmarshal of the result must not fail and must be equal (nil == empty collections, floats by == or both NaN, unions through the member pointer). library: declared types with embedded structs by value and by pointer, recursion, pointer-to-pointer fields, bools in nested/pointer/list positions, unions nested in structs/lists/pointers, ids at 64/65/128/129/32767. long-collections: lists, sets and maps with as many elements as the decoder preallocates (64 KiB worth), one less, one more, 4/3, 2x+1 and 3x as many. reuse: one Encoder and one Decoder carried through 2-6 Reset calls across protocols (strict on/off), several values per stream: bytes equal to a fresh Marshal and values equal. Differences are classified by protocol and by the shape of the first differing field.",
 		Trusted: []string{"harness/gen/ttypes.Equal (nil == empty, == on floats, union member through its pointer)", "reflect.StructOf-built types take the same codec construction path as declared ones"},
 		Subs: []core.Sub{
 			{Name: "generated", N: core.Const(15000, 600000), Run: runGenerated},
 			{Name: "library", N: core.Const(4000, 100000), Run: runLibrary},
+			{Name: "long-collections", N: core.Const(42, 420), Run: runLong},
 			{Name: "reuse", N: core.Const(3000, 100000), Run: runReuse},
 		},
 	})
